@@ -12,6 +12,7 @@ import (
 	_ "verif/mc/drivers/c11"
 	_ "verif/mc/drivers/c14"
 	_ "verif/mc/drivers/c15"
+	_ "verif/mc/drivers/c18"
 	_ "verif/mc/drivers/c19"
 	_ "verif/mc/drivers/c20"
 )
